@@ -291,6 +291,9 @@ impl RK23 {
                             k1.copy_from_slice(&k4);
                         }
                     }
+                } else {
+                    // Without a callback the last stage is the first stage of the next step as well.
+                    k1.copy_from_slice(&k4);
                 }
 
                 // Adjust step size
